@@ -19,7 +19,7 @@ import sim
 def scratch_copy():
     d = tempfile.mkdtemp(prefix='verif-mut-', dir='/dev/shm')
     subprocess.run(
-        ['rsync', '-a', '--exclude', '.git', '--exclude', 'pySDC/playgrounds', '--exclude', 'pySDC/tutorial', '--exclude', 'docs',
+        ['rsync', '-a', '--exclude', '.git', '--exclude', 'pySDC/playgrounds/*/data', '--exclude', 'pySDC/tutorial', '--exclude', 'docs',
          '--exclude', '__pycache__', '--exclude', 'pySDC/projects/*/data', '/repo/', d + '/'],
         check=True,
     )
